@@ -21,6 +21,7 @@ type exprCtx struct {
 	names  map[ssa.Value]string // override names for specific values (e.g. the converted operand)
 	depth  int
 	inline bool // render calls to module functions by name only (never descend)
+	visiting map[ssa.Value]bool
 }
 
 func (c *Ctx) newExpr(fn *ssa.Function) *exprCtx {
@@ -105,6 +106,14 @@ func (e *exprCtx) render(v ssa.Value, depth int) string {
 		if isBoolType(x.Type()) {
 			return e.boolString(v, depth)
 		}
+		if e.visiting == nil {
+			e.visiting = map[ssa.Value]bool{}
+		}
+		if e.visiting[v] {
+			return "loopvar"
+		}
+		e.visiting[v] = true
+		defer delete(e.visiting, v)
 		var parts []string
 		seen := map[string]bool{}
 		for _, ed := range x.Edges {
